@@ -140,6 +140,24 @@ impl LCtx {
     })
     .box_it()
   }
+  /// `dinterval d p`: a REPEATING task (period p, ticks 0,1,2,…) handed to `schedule()` WITH a start delay d — public API of
+  /// the scheduler that no operator of the crate uses (they give delays to one-shot tasks only)
+  fn dinterval(&self, d: Duration, p: Duration) -> LBox {
+    use rxrust::scheduler::{RepeatTask, Scheduler};
+    let sched = self.sched.clone();
+    fn tick(s: &mut Subscriber<BoxObserver<'static, Val, i64>>, seq: usize) -> bool {
+      if !s.is_finished() && !s.is_closed() {
+        s.next(Val::Int(seq as i64));
+        true
+      } else {
+        false
+      }
+    }
+    observable::create(move |s: Subscriber<BoxObserver<'static, Val, i64>>| {
+      let _handle = sched.schedule(RepeatTask::new(p, tick, s), Some(d));
+    })
+    .box_it()
+  }
 }
 
 impl TCtx {
@@ -186,6 +204,22 @@ impl TCtx {
           Notif::Complete => s.clone().complete(),
         }
       }
+    })
+    .box_it()
+  }
+  fn dinterval(&self, d: Duration, p: Duration) -> TBox {
+    use rxrust::scheduler::{RepeatTask, Scheduler};
+    let sched = self.sched.clone();
+    fn tick(s: &mut SubscriberThreads<BoxObserverThreads<Val, i64>>, seq: usize) -> bool {
+      if !s.is_finished() && !s.is_closed() {
+        s.next(Val::Int(seq as i64));
+        true
+      } else {
+        false
+      }
+    }
+    observable::create(move |s: SubscriberThreads<BoxObserverThreads<Val, i64>>| {
+      let _handle = sched.schedule(RepeatTask::new(p, tick, s), Some(d));
     })
     .box_it()
   }
@@ -343,6 +377,7 @@ macro_rules! impl_build {
         "never" => observable::never().map(|_| Val::Unit).on_error_map(widen).box_it(),
         "throw" => observable::throw(xs[1].int()).map(|_| Val::Unit).box_it(),
         "create" => ctx.create(xs[1..].iter().map(Notif::parse).collect()),
+        "dinterval" => ctx.dinterval(ms(&xs[1]), ms(&xs[2])),
         "defer" => {
           let inner = xs[1].clone();
           let c = ctx.clone();
